@@ -121,7 +121,7 @@ theorem step_done_origin (s : St) (t : Nat) (r : Res) (h : (step s t).thr t = .d
     (∃ id idx g, s.thr t = .rCan id idx g ∧ s.enqTail = g + 1 ∧ r = .canIdx true) ∨
     (∃ hh w, s.thr t = .cChkTail hh w ∧ s.tail = hh ∧ r = .empty) ∨
     (∃ id v, s.thr t = .cRelease id v ∧ s.head = id ∧ r = .got v) ∨
-    (s.thr t = .lLen ∧ r = .len (s.tail - s.head)) := by
+    (∃ tl, s.thr t = .lLenH tl ∧ r = .len (U32.wsub (U32.wrap tl) (U32.wrap s.head))) := by
   cases hl : s.thr t <;> simp only [step, hl] at h <;> (repeat' split at h) <;>
     simp_all
   all_goals (subst h; first | exact ⟨_, _, _, ⟨rfl, rfl, rfl⟩, rfl, rfl⟩ | exact ⟨_, _, ⟨rfl, rfl⟩, rfl, rfl⟩)
